@@ -40,7 +40,7 @@ PARENTS = {'bending stress': ['tangential force'], 'contact stress': ['tangentia
 
 
 def bounds(tier):
-    return {'powertrains': 3 if tier != 'quick' else 2, 'variable_subsets': 'all non-empty', 'time_units': 4,
+    return {'powertrains': 4 if tier != 'quick' else 3, 'variable_subsets': 'all non-empty', 'time_units': 4,
             'unit_deviation_bound': 1 if tier == 'quick' else 2}
 
 
@@ -56,6 +56,17 @@ def model_spec(which):
                {'k': 'Ww', 'z': 30, 'J': J, 'beta': [10.0, 'deg'], 'alpha': [20.0, 'deg'], 'm': [1.0, 'mm'], 'b': [5.0, 'mm']},
                {'k': 'S', 'z': 20, 'J': J}]
         links = [{'t': 'J'}, {'t': 'W', 'f': 0.1}, {'t': 'J'}]
+    elif which == 3:
+        # self-locking worm chain, initial speed written in rpm, motor off at first: the chain is held (the solver writes
+        # its own 0 rad/s objects) and then restarts -- one history holds samples in several units; the load function
+        # answers in another torque unit at every instant
+        spec = menu.assign([('J', 'Wg'), ('W', 'Ww')], motor=menu.MOTOR_CUR, locking=True,
+                           init={'theta': [5.0, 'deg'], 'w': [30.0, 'rpm']})
+        spec['elements'][1]['d'] = [10.0, 'mm']
+        spec['elements'][2].update({'m': [1.0, 'mm'], 'b': [5.0, 'mm']})
+        spec['load'] = ['const', 0.3 * menu.stall_at_output(spec)]
+        spec['load_unit'] = ['Nm', 'mNm', 'kgfcm']
+        return spec
     else:
         els = [dict(menu.MOTOR_CUR), {'k': 'F', 'J': J},
                {'k': 'H', 'z': 15, 'J': J, 'beta': [20.0, 'deg'], 'm': [1.0, 'mm']},
@@ -74,7 +85,8 @@ def simulate(which):
         # pairwise different names that any normalisation (strip, case folding, unicode composition) would merge
         names = ['drive', 'drive ', ' drive', 'Drive', 'dr\u00edve', 'dri\u0301ve'][:len(spec['elements'])]
     m = sim.Model(spec, names)
-    m.run([0.125, 'sec'], [1.0, 'sec'], duty=[1, 0.6, 0.8, 1, 0.3, None, 0.9, 1, 1])
+    duty = [1, 0.6, 0.8, 1, 0.3, None, 0.9, 1, 1] if which != 3 else [0, 0, 1, 1, 0.7, 1, 0, 1, 1]
+    m.run([0.125, 'sec'], [1.0, 'sec'], duty=duty)
     return m
 
 
@@ -246,7 +258,7 @@ def target_times(m):
 
 def shards(tier):
     out = []
-    for which in range(2 if tier == 'quick' else 3):
+    for which in ((0, 1, 3) if tier == 'quick' else (0, 1, 2, 3)):
         for p in range(16):
             out.append({'model': which, 'mode': 'subsets', 'part': [p, 16]})
         out.append({'model': which, 'mode': 'times'})
